@@ -76,16 +76,20 @@ def py_local(zs, w):
 
 def zone_job(a):
     from zonedb.zone_specifier import ZoneSpecifier
-    exe, zi, z, seed, tier, all_opts = a["exe"], a["zi"], a["z"], a["seed"], a["tier"], a["all_opts"]
-    name = z["name"]
+    exe, zi, z, seed, tier, all_opts = a["exe"], a["zi"], a.get("z"), a["seed"], a["tier"], a["all_opts"]
+    name = a.get("name") or z["name"]
     res = {"zone": name, "fails": [], "evaluations": 0, "nt_years": 0, "nt_wall": 0, "samples": [], "hist": {}}
 
     def fail(kind, detail):
         if len(res["fails"]) < 6:
             res["fails"].append({"kind": kind, "detail": detail})
 
-    info = to_python_info(z)
-    T0, T1 = sweeplib.T0, sweeplib.T1
+    # the Python-side data: either the tables as decoded by the C++ brokers (shipped database) or the in-memory tables the
+    # compiler produced from the same source as the C++ tables under test (freshly compiled source)
+    info = a.get("info") or to_python_info(z)
+    T0, T1 = a.get("t0", sweeplib.T0), a.get("t1", sweeplib.T1)
+    Y0 = (EPOCH_DT + dtm.timedelta(seconds=T0)).year
+    Y1 = (EPOCH_DT + dtm.timedelta(seconds=T1 - 1)).year + 1
     rc, out, err = vt.run_exe(exe, ["sweep", "x", zi, zi + 1, T0, T1, 60], timeout=3600)
     parsed = sweeplib.parse_sweep(out or "")
     if rc != 0 or name not in parsed:
@@ -99,13 +103,13 @@ def zone_job(a):
     inst = set()
     for t in changes:
         inst.update((t - 1, t, t + 1))
-    for y in range(2000, 2050):
+    for y in range(Y0, Y1):
         for m in range(1, 13):
             inst.add(tzoracle.t_of(y, m))
         inst.add(tzoracle.t_of(y + 1) - 1)
     pystarts = set()
     years_multi = 0
-    for y in range(2000, 2050):
+    for y in range(Y0, Y1):
         try:
             zs.init_for_year(y)
             if len(zs.transitions) >= 2:
@@ -140,7 +144,7 @@ def zone_job(a):
     for _ in range(200):
         w = rnd.randrange(lo_lim, hi_lim)
         wins.append((w, w, 1))
-    for y in range(2001, 2050):
+    for y in range(Y0 + 1, Y1):
         t = tzoracle.t_of(y)
         wins.append((t - 3600, t + 3600, 60))
     wins = [((max(lo, lo_lim) // 60) * 60 if st == 60 else max(lo, lo_lim), min(hi, hi_lim), st) for lo, hi, st in wins
@@ -162,7 +166,7 @@ def zone_job(a):
     zs = ZoneSpecifier(info)
     # breakpoints of the Python side: startDateTime of every transition, as wall epoch
     pbreaks = set()
-    for y in range(2000, 2050):
+    for y in range(Y0, Y1):
         try:
             zs.init_for_year(y)
             for tr in zs.transitions:
@@ -213,7 +217,7 @@ def zone_job(a):
         answers = [py_info(zs, t) for t in inst]
         res["evaluations"] += len(inst)
         lists = []
-        for y in range(2000, 2050):
+        for y in range(Y0, Y1):
             try:
                 zs.init_for_year(y)
                 lists.append([(tr.startEpochSecond,) + tuple(tr.to_timezone_tuple()) for tr in zs.transitions])
@@ -241,15 +245,15 @@ def zone_job(a):
                     break
         if key in ref_lists:
             if ref_lists[key][1] != lists:
-                y = next(i for i in range(50) if ref_lists[key][1][i] != lists[i])
-                fail("options-transitions", {"year": 2000 + y, "options_a": ref_lists[key][0], "a": ref_lists[key][1][y][:6],
+                y = next(i for i in range(len(lists)) if ref_lists[key][1][i] != lists[i])
+                fail("options-transitions", {"year": Y0 + y, "options_a": ref_lists[key][0], "a": ref_lists[key][1][y][:6],
                                              "options_b": o, "b": lists[y][:6]})
         else:
             ref_lists[key] = (o, lists)
     res["hist"]["option_sets"] = len(opts)
     # ---------- history independence of the Python implementation ----------
     zs = ZoneSpecifier(info)
-    ys = [rnd.randrange(2000, 2050) for _ in range(12)]
+    ys = [rnd.randrange(Y0, Y1) for _ in range(12)]
     for y in ys:
         t = tzoracle.t_of(y, 1 + rnd.randrange(12), 1 + rnd.randrange(28), rnd.randrange(24))
         a_ = py_info(zs, t)
@@ -261,10 +265,98 @@ def zone_job(a):
     return res
 
 
+SECONDS_SOURCE = (
+    "Zone\tAfrica/Monrovia\t-0:43:08\t-\tLMT\t1882\n\t\t\t-0:43:08\t-\tMMT\t1919\tMar\n"
+    "\t\t\t-0:44:30\t-\tMMT\t1972\tJan\t7\n\t\t\t0:00\t-\tGMT\n"
+    "Rule\tPX\t1960\tmax\t-\tApr\tSun>=1\t2:00:30\t1:00\tD\nRule\tPX\t1960\tmax\t-\tOct\tlastSun\t2:00\t0\tS\n"
+    "Zone\tTest/Seconds\t5:17:20\t-\tLMT\t1950\n\t\t\t5:17:20\tPX\tT%sT\t1985\n\t\t\t5:00\tPX\tT%sT\n"
+    "Rule\tPY\t1960\tmax\t-\tApr\tSun>=1\t2:00\t1:00\tD\nRule\tPY\t1960\tmax\t-\tOct\tlastSun\t2:00\t0\tS\n"
+    "Zone\tTest/Odd\t2:07:00\t-\tLMT\t1950\n\t\t\t2:07\tPY\tSAST\n")
+
+
+def compile_fresh(ctx, label, src, sy, uy, pick, all_opts, singles=None):
+    """Compile `src` (extended scope) to C++ tables and, in-process, to the Python in-memory tables; -> [(zone_job args, meta)].
+    `pick(names)` selects the zones to evaluate; `singles` maps a zone name to the small source it came from (for replays)."""
+    import c03lib
+    import compilelib
+    work = vt.build_dir("C04")
+    ns = "f" + "".join(c for c in label if c.isalnum())[:8]
+    r = compilelib.compile_source(work, "fresh_" + label, src, "extended", "arduino", db_namespace=ns, start_year=sy, until_year=uy,
+                                  tz_version=label)
+    if r["rc"] != 0:
+        raise vt.HarnessError("tzcompiler.py failed on the %s source (C03 decides whether that is a defect): %s" % (label, r["log"][-600:]))
+    p = c03lib.pipeline(r["indir"], "extended", sy, uy)
+    exe = compilelib.build_with_generated("C04", "sweep_fresh_" + label, "sweep.cpp", x_out=r["outdir"], x_ns=ns)
+    listed = sweeplib.list_zones(exe, "x")
+    if sorted(listed) != sorted(p["infos"]):
+        ctx.violation("fresh:%s:zone-sets-differ" % label, {"source": src if len(src) < 20000 else None, "start_year": sy, "until_year": uy},
+                      "freshly compiled %s: the C++ registry and the Python tables list different zones: %r" %
+                      (label, sorted(set(listed) ^ set(p["infos"]))[:10]))
+    names = [z for z in listed if z in p["infos"]]
+    chosen = set(pick(names)) if pick else set(names)
+    out = []
+    for zi, z in enumerate(listed):
+        if z in chosen:
+            single = singles(z) if singles else (src if len(src) < 20000 else None)
+            out.append((dict(exe=exe, zi=zi, name=z, info=p["infos"][z], t0=tzoracle.t_of(sy), t1=tzoracle.t_of(uy), seed=ctx.seed,
+                             tier=ctx.tier, all_opts=all_opts),
+                        {"label": label, "source": single, "sy": sy, "uy": uy}))
+    return out
+
+
+def fresh_jobs(ctx, thorough, rnd):
+    """Freshly compiled sources (the property's second data domain): the real 2025b release for 1995..2040, enumerated and
+    Hypothesis-drawn small sources for 2000..2050, a source with second-resolution offsets for 1965..2000."""
+    import hypothesis
+    from hypothesis import given, settings, strategies as st, Phase, HealthCheck
+    import re
+    import tzexpand
+    import tzgen
+    out = []
+    long, stats, kept = tzexpand.expand(open(os.path.join(vt.VERIF, "tzsrc", "2025b", "tzdata.zi")).read())
+    out += compile_fresh(ctx, "real2025b", long, 1995, 2040, (lambda n: n) if thorough else (lambda n: rnd.sample(n, 40)), False)
+    objs = tzgen.systematic_sources(False)
+    if not thorough:
+        objs = rnd.sample(objs, 110)
+    drawn = []
+
+    @hypothesis.seed(ctx.seed)
+    @settings(max_examples=300 if thorough else 40, deadline=None, database=None, phases=[Phase.generate], suppress_health_check=list(HealthCheck))
+    @given(tzgen.source(False))
+    def gen(o):
+        drawn.append(o)
+
+    gen()
+    objs = objs + drawn
+    ctx.count("fresh_generated_sources", len(objs))
+    text = "".join(tzgen.render(o, "S%d" % i) for i, o in enumerate(objs))
+    ok, err = tzoracle.zic_compile(text, os.path.join(vt.build_dir("C04"), "zic_fresh_gen"))
+    if not ok:
+        # a generated source zic rejects is outside the input domain: drop the offending sources one by one
+        keep = []
+        for i, o in enumerate(objs):
+            ok1, _ = tzoracle.zic_compile(tzgen.render(o, "S%d" % i), os.path.join(vt.build_dir("C04"), "zic_fresh_one"))
+            if ok1:
+                keep.append((i, o))
+        ctx.count("fresh_generated_sources_rejected_by_zic", len(objs) - len(keep))
+        text = "".join(tzgen.render(o, "S%d" % i) for i, o in keep)
+
+    def single(z):
+        m = re.match(r"Gen/S(\d+)", z)
+        return tzgen.render(objs[int(m.group(1))]) if m else None
+
+    out += compile_fresh(ctx, "generated", text, 2000, 2050, None, False, singles=single)
+    out += compile_fresh(ctx, "seconds", SECONDS_SOURCE, 1965, 2000, None, True)
+    return out
+
+
 def run(ctx):
     ctx.assumptions = [
-        "both sides consume the same data by construction: the Python ZoneInfo dictionaries are built from the tables as decoded by "
-        "the C++ brokers (dumpdb driver)",
+        "shipped database: both sides consume the same data by construction: the Python ZoneInfo dictionaries are built from the "
+        "tables as decoded by the C++ brokers (dumpdb driver)",
+        "freshly compiled sources: the C++ side runs on the tables tzcompiler.py generates (arduino, extended scope), the Python side "
+        "on the in-memory tables the same compiler classes produce from the same source and year range (what --language python "
+        "writes; C20 ties the written files to the in-memory tables)",
         "oracle: differential (C++ vs Python, and the Python configurations against each other); exceptions / sys.exit in the "
         "reference implementation count as disagreement",
         "local date-times limited to 2000-01-03..2049-12-29; C++ observable = TimeZone::getOffsetDateTime (wall - chosen offset, "
@@ -281,23 +373,42 @@ def run(ctx):
         only = json.load(open(ctx.replay))["replay"]["zone"]
     jobs = [dict(exe=exe, zi=i, z=z, seed=ctx.seed, tier=ctx.tier, all_opts=(i in allopt) or only is not None)
             for i, z in enumerate(zones) if only is None or z["name"] == only]
-    for r in vt.pmap(zone_job, jobs):
+    fresh = [] if only is not None else fresh_jobs(ctx, thorough, rnd)
+    if ctx.replay:
+        rp = json.load(open(ctx.replay))["replay"]
+        if "source" in rp:
+            jobs = []
+            fresh = compile_fresh(ctx, "replay", rp["source"], rp["start_year"], rp["until_year"], None, True)
+    results = vt.pmap(zone_job, jobs + [f for f, _ in fresh])
+    metas = [None] * len(jobs) + [m for _, m in fresh]
+    for r, meta in zip(results, metas):
         ctx.evaluations += r["evaluations"]
         ctx.nontrivial += r["nt_years"] + r["nt_wall"]
         ctx.count("zone_years_with_2+_transitions", r["nt_years"])
         ctx.count("wall_time_cases", r["nt_wall"])
-        ctx.count("zones")
+        ctx.count("zones" if meta is None else "fresh_zones_" + meta["label"])
         ctx.count("zones_with_all_8_option_sets", 1 if r["hist"].get("option_sets") == 8 else 0)
         for s in r["samples"]:
-            ctx.sample(s, cap=6)
+            ctx.sample(s, cap=6 if meta is None else 9)
         for f in r["fails"]:
             key = "%s:%s" % (f["kind"], r["zone"])
             if f["kind"] in ("options-local", "local"):
                 key += "@" + f["detail"].get("wall_iso", "?")[:16]
                 if f["kind"] == "options-local":
                     key += "/vm%d" % f["detail"]["options_b"]["viewing_months"]
-            ctx.violation(key, {"zone": r["zone"], "fail": f}, "%s %s: %s" % (f["kind"], r["zone"], json.dumps(f["detail"], default=str)[:900]))
-    ctx.rule = ("every zone of zonedbx (decoded to the Python data model) x every C++ change instant +-1 s, every Python "
+            if meta is None:
+                ctx.violation(key, {"zone": r["zone"], "fail": f}, "%s %s: %s" % (f["kind"], r["zone"], json.dumps(f["detail"], default=str)[:900]))
+            else:
+                # generated zones are renumbered per run: key by corpus and kind of failure only
+                if meta["label"] != "real2025b":
+                    key = f["kind"]
+                ctx.violation("fresh:%s:%s" % (meta["label"], key),
+                              {"zone": r["zone"], "fail": f, "source": meta["source"], "start_year": meta["sy"], "until_year": meta["uy"]},
+                              "freshly compiled %s (%d..%d), C++ tables vs Python tables, %s %s: %s" %
+                              (meta["label"], meta["sy"], meta["uy"], f["kind"], r["zone"], json.dumps(f["detail"], default=str)[:900]))
+    ctx.rule = ("every zone of zonedbx (decoded to the Python data model) and of freshly compiled sources (real 2025b for 1995..2040: " +
+                ("all" if thorough else "40 seed-drawn") + " zones; enumerated + Hypothesis-drawn small sources for 2000..2050; a source with "
+                "second-resolution offsets for 1965..2000) x every C++ change instant +-1 s, every Python "
                 "startEpochSecond +-1 s and every month start; every wall minute within +-180 min of every transition, year ends and "
                 "seed-drawn wall times (sub-intervals between breakpoints of either side evaluated at both ends); option sets: "
                 "{default, all-basic/13 months} for all zones and all 8 for " + ("all zones" if thorough else "40 seed-drawn zones") +
